@@ -40,6 +40,10 @@ inductive Op where
   | rmRoute (sender asset : Nat)
   | unreg (sender pool : Nat)
   | toggle (sender pool : Nat) (on : Bool)
+  /-- `CollectFees` sent to the collector directly, in mid-history, by anybody -/
+  | collect (sender : Nat) (f : Collector.FeesFor)
+  /-- `AggregateFees` sent to the collector directly; router outputs / accrued fees as recorded -/
+  | aggregate (sender : Nat) (f : Collector.FeesFor) (router : Nat → Nat → Nat → Nat) (acc : Nat → Nat → Nat)
 
 def updOpt (f : Nat → Option Nat) (i : Nat) (v : Option Nat) : Nat → Option Nat := fun j => if j = i then v else f j
 def updHops (f : Nat → List (Nat × Nat)) (i : Nat) (v : List (Nat × Nat)) : Nat → List (Nat × Nat) :=
@@ -130,5 +134,22 @@ def step (cfg : Cfg) (s : St) : Op → Res St
   | .toggle sender pool on =>
     if sender ≠ cfg.c.owner then .err
     else .ok { s with c := { s.c with pools := modPool pool (fun p => { p with on := on }) s.c.pools } }
+  | .collect sender f =>
+    match Collector.collectFees s.c sender f with
+    | .ok c' => .ok { s with c := c' }
+    | .err => .err
+    | .panic => .panic
+  | .aggregate sender f router acc =>
+    match Collector.aggregateFees cfg.c s.c sender f router acc with
+    | .ok (c', _, _) => .ok { s with c := c' }
+    | .err => .err
+    | .panic => .panic
+
+/-- fold a history of the joint machine; failed operations leave the state unchanged -/
+def reach (cfg : Cfg) (s : St) : List Op → St
+  | [] => s
+  | op :: ops => match step cfg s op with
+    | .ok s' => reach cfg s' ops
+    | _ => reach cfg s ops
 
 end WW.Feeflow
